@@ -258,6 +258,18 @@ theorem tag_is_existing_variant (tags : List Str) (s : Str) (t : Str)
     · rcases List.mem_map.mp hm with ⟨c, _, rfl⟩
       rfl
 
+/-- the decimal numeral the model renders for a number (`str(int)` in the code) reads back as that number
+    (`int(str)`): the branch names built from version components denote those components -/
+theorem numeral_roundtrip (n : Nat) : digitsVal (natStr n) = n := by
+  unfold digitsVal natStr
+  rw [Nat.toString_eq_repr, Nat.toList_repr]
+  exact Nat.ofDigitChars_ten_toDigits
+
+/-- hence different numbers never render to the same numeral -/
+theorem numeral_injective (a b : Nat) (h : natStr a = natStr b) : a = b := by
+  have := congrArg digitsVal h
+  rwa [numeral_roundtrip, numeral_roundtrip] at this
+
 /-! ### non-vacuity: concrete inputs meeting the hypotheses (tests, labelled as tests) -/
 
 example : bestMatch [['7', '.', '0'], ['6'], master] (some ['7', '.', '3', '.', '0']) = .ok (some ['7', '.', '0']) := by decide
